@@ -335,10 +335,12 @@ script:
 				if err != nil {
 					return err
 				}
-				if !done {
-					return pt.Inconclusivef("%s: the rotation tick did not move the WAL of every shard with data to the next block", stage)
+				if done {
+					e.markDurable(want)
+				} else {
+					// not fatal: what was seen logged stays owed however the block was (not) closed
+					o.Class("block_rotation_not_observed")
 				}
-				e.markDurable(want)
 			}
 			if err := e.observe(); err != nil {
 				return err
